@@ -6,8 +6,16 @@ PROPS_MODULES = ['LA.Props.C02']
 GEN = ['TarLayout', 'CpioLayout', 'ArLayout', 'CodecConsts']
 ASSUMPTIONS = [
     'strings are C strings of bytes, conversion is the identity (C.UTF-8); an entry names at most one kind of link',
-    'xattrs, ACLs, sparse maps and file flags are not driven (pathname, type, size, link targets, ids, names, permissions, '
-    'mtime, rdev and bodies are)',
+    'driven per entry: pathname, type, size, link targets, ids, names, permissions, mtime (also unset), atime / ctime / birth time '
+    '(each present or absent), rdev, bodies, sparse maps (the body is NUL in the holes; a hole at the end of the file is implied by the size), '
+    'POSIX.1e access / default and NFSv4 ACLs, extended attributes; file flags and mac metadata are not driven',
+    'which format carries which optional field is part of the spec (LA.Model.FmtSpec: atimeMode, btimeMode, carriesSparse, carriesAcl, '
+    'carriesXattr); a field a format does not carry is not compared. Birth time: pax and iso9660 store it only when it is not later than mtime',
+    'Unicode names: writers that convert names (7zip, iso9660, xar; any writer under hdrcharset=) store them NFC-normalised; names with '
+    'combining marks are generated only for the formats that keep the bytes. Under hdrcharset=KOI8-R / CP866 round-trip names are drawn '
+    'from that charset. The Joliet tree (reader option !rockridge or an image written without Rock Ridge) is compared on name, type, '
+    'size, mtime and body for names Joliet holds unchanged (<= 64, with joliet=long <= 103 UCS-2 units per component, none of * / : ; ? \\)',
+    'an ACL names each (tag, id) at most once; ACL / xattr / option cases are not rewritten into a different format',
     'write filters are not modelled: with a filter the byte-level model only monitors and the round trip is judged by the '
     'predicate engine; 7zip is not driven through filters (its reader needs a seekable source)',
     'read block size is not varied here (C05); shar and raw have no reader',
@@ -27,7 +35,11 @@ MANIFEST = {
             'engine compares model and real writer/reader byte for byte on ustar/odc/newc (incl. block padding and a second '
             'write of the read-back entries) and, for all 17 readable formats x chunkings x block sizes x filters, evaluates on '
             'the real code: representable => ARCHIVE_OK, read-back == norm, detected format == written, clean EOF, and the '
-            'fixed point (read-back entries written again, into the same or another format, read back unchanged).',
+            'fixed point (read-back entries written again, into the same or another format, read back unchanged). Further '
+            'generator dimensions: archives of 9..33 entries with the optional times present at varying positions; sparse maps whose '
+            'text form is 510..514 / 1022..1026 bytes long; access, default, access+default and NFSv4 ACLs and extended attributes '
+            'on files and directories; Unicode names whose UTF-16 units have a 0x2F / 0x5C / 0x00 byte, also read through the Joliet '
+            'tree and under hdrcharset conversions.',
     'note': 'partial: proof for ustar (header + stream) and pax record lengths; cpio odc/newc header fields in C10; all other '
             'formats and the fixed-point clause beyond pathnames are checked differentially against the spec only.',
     'technique': 'Lean 4 proof (well-founded reader over the stream, induction over entries, fold lemma for arbitrary chunkings) '
